@@ -1,6 +1,7 @@
 package engines
 
 import (
+	"errors"
 	"fmt"
 	"sort"
 	"strconv"
@@ -143,6 +144,20 @@ func idemMain(s *simrt.Sim, info *harness.RunInfo) {
 	disableNorm := s.Chance(250)
 	csp, hsp := spellOf(cfgSpell), spellOf(hdlSpell)
 	cfg := idempotency.Config{Lifetime: lifetime}
+	// the header carrying the key and its syntax check are configurable
+	keyHeader := simrt.PickS(s, "X-Idempotency-Key", "X-Idempotency-Key", "Idempotency-Key")
+	customValidate := s.Chance(250)
+	if keyHeader != "X-Idempotency-Key" {
+		cfg.KeyHeader = keyHeader
+	}
+	if customValidate {
+		cfg.KeyHeaderValidate = func(k string) error {
+			if !strings.HasPrefix(k, "key-") {
+				return errors.New("malformed idempotency key")
+			}
+			return nil
+		}
+	}
 	switch keepMode {
 	case 1:
 		cfg.KeepResponseHeaders = []string{csp("X-Exec"), csp("X-Multi"), csp("X-Single"), csp("Content-Type")}
@@ -180,8 +195,8 @@ func idemMain(s *simrt.Sim, info *harness.RunInfo) {
 		}
 		cfg.Lock = lk
 	}
-	cfgLine := fmt.Sprintf("faults=%v storage=%s lifetime=%v keep=%d keys=%d clients=%d preempt=%d locker=%v failPermille=%d dense=%v spelling=%d/%d noNormalizing=%v", faults,
-		map[bool]string{false: "storage-memory", true: "sim"}[useSim], lifetime, keepMode, nkeys, nclients, preempt, lk != nil, failPermille, dense, cfgSpell, hdlSpell, disableNorm)
+	cfgLine := fmt.Sprintf("faults=%v storage=%s lifetime=%v keep=%d keys=%d clients=%d preempt=%d locker=%v failPermille=%d dense=%v spelling=%d/%d noNormalizing=%v keyHeader=%s customValidate=%v", faults,
+		map[bool]string{false: "storage-memory", true: "sim"}[useSim], lifetime, keepMode, nkeys, nclients, preempt, lk != nil, failPermille, dense, cfgSpell, hdlSpell, disableNorm, keyHeader, customValidate)
 	s.Logf("cfg %s", cfgLine)
 
 	nexec := 0
@@ -237,7 +252,12 @@ func idemMain(s *simrt.Sim, info *harness.RunInfo) {
 	})
 	app.Handler()
 
-	keyName := func(i int) string { return fmt.Sprintf("key-%032d", i) }
+	keyName := func(i int) string {
+		if customValidate && i%2 == 1 {
+			return fmt.Sprintf("key-short-%d", i) // legal under the custom syntax check only
+		}
+		return fmt.Sprintf("key-%032d", i)
+	}
 	type plan struct {
 		think []time.Duration
 		ops   []*idemOp
@@ -312,7 +332,7 @@ func idemMain(s *simrt.Sim, info *harness.RunInfo) {
 				}
 				req := harness.Req{Method: op.method, Path: "/do", Headers: [][2]string{{"X-Op", strconv.Itoa(op.id)}}}
 				if op.key != "" {
-					req.Headers = append(req.Headers, [2]string{"X-Idempotency-Key", op.key})
+					req.Headers = append(req.Headers, [2]string{keyHeader, op.key})
 				}
 				op.issue, op.issueT = s.Stamp(), time.Now()
 				opOfTask[simrt.TaskID()] = op
